@@ -256,8 +256,7 @@ def run(ctx):
                 ia = [Tg.operand(x) for x in inner[0][1]["args"]]
                 isp = M.noref(M.strip(ia[0], also=("<std::rc::Rc<T, A> as std::ops::Deref>::deref", "<std::rc::Rc<T> as std::ops::Deref>::deref"))) == ("param", 1, g.local_name(1))
                 # the only admissible way to skip the marking inside the helper: the descriptor is one of 0..2
-                low = bool_edges(g, Tg, lambda c: c[0] == "bin" and c[1] == "Gt" and const_of(c[3]) == 2 and M.contains(c[2], lambda u: u[0] == "call" and u[1].endswith("as_raw_fd")), True) + \
-                    bool_edges(g, Tg, lambda c: c[0] == "bin" and c[1] == "Ge" and const_of(c[3]) == 3 and M.contains(c[2], lambda u: u[0] == "call" and u[1].endswith("as_raw_fd")), True)
+                low = int_gt_edges(g, Tg, lambda u: M.contains(u, lambda w: w[0] == "call" and w[1].endswith("as_raw_fd")) and not M.contains(u, lambda w: w[0] == "bin"), 2)
                 oke = try_ok_edges(g, Tg, lambda c: c[1] == "popen::os::set_inheritable")
                 rets_ok = all(dominated_by_edges(g, r_, oke + [e_ for e_ in _neg_edges(g, Tg, low)]) for r_ in _ok_returns(g))
                 if isp and const_of(ia[1]) == 0 and (not low or dominated_by_edges(g, inner[0][0], low)) and rets_ok:
